@@ -234,6 +234,10 @@ func init() {
 		"errors.Is": ext1(extErrorsIs),
 		"errors.As": ext1(extErrorsAs),
 
+		// ---- sort (reflection-based swapper replaced) ----
+		"sort.Slice":       ext1(extSortSlice),
+		"sort.SliceStable": ext1(extSortSlice),
+
 		// ---- fmt ----
 		"fmt.Sprintf": ext1(func(fr *frame, a []value) value { return fmtSprintf(fr, a[0], a[1].([]value)) }),
 		"fmt.Errorf":  ext1(extErrorf),
@@ -583,6 +587,31 @@ func extErrorsAs(fr *frame, a []value) value {
 		err = next
 	}
 	return false
+}
+
+// extSortSlice sorts the slice held in the interface argument in place with a
+// stable insertion sort driven by the caller's less function; comparisons on
+// symbolic values branch. (sort.Slice promises no particular order among equal
+// elements; the stable one is one of the permitted outcomes.)
+func extSortSlice(fr *frame, a []value) value {
+	it, ok := a[0].(iface)
+	if !ok {
+		unsupported("sort.Slice on %T", a[0])
+	}
+	xs, ok := it.v.([]value)
+	if !ok {
+		panic(targetPanic{"sort.Slice: argument is not a slice"})
+	}
+	less := a[1]
+	for k := 1; k < len(xs); k++ {
+		for j := k; j > 0; j-- {
+			if !fr.i.truth(call(fr.i, fr, token.NoPos, less, []value{j, j - 1})) {
+				break
+			}
+			xs[j], xs[j-1] = xs[j-1], xs[j]
+		}
+	}
+	return nil
 }
 
 // ---- fmt support ----
